@@ -265,6 +265,13 @@ def shapeop_case(rng, tier):
             c['x'] = intdata(rng, (D, P) + ((rng.randint(1, 3),) * 2 if rng.random() < 0.4 else (rng.randint(1, 5), rng.randint(1, 5))))
             if op != 'trace' and rng.random() < 0.5:
                 c['k'] = rng.randint(-5, 5)        # off-diagonals, also beyond the matrix
+            if op in ('triu', 'tril') and rng.random() < 0.4:
+                # non-finite entries (e.g. log of a triangular matrix): the selected ones are kept, the discarded ones become 0
+                xf = np.array(c['x'], dtype=float)
+                for _ in range(rng.randint(1, 4)):
+                    idx = tuple(rng.randrange(n_) for n_ in xf.shape)
+                    xf[idx] = rng.choice([np.inf, -np.inf, np.nan])
+                c['x'] = xf
     elif op == 'sum':
         s = tuple(rng.randint(1, 3) for _ in range(rng.randint(0, 3)))          # also a scalar polynomial (no array axes)
         c['x'], c['axis'] = intdata(rng, (D, P) + s), rng.choice([None] + list(range(-len(s), len(s))))
@@ -372,7 +379,7 @@ def shapeop_fails(ctx, case):
         y = f(u)
     except Exception as ex:
         return 'shapeop-exception-%s: raised %s' % (op, type(ex).__name__ + ':' + str(ex)[:80])
-    if not np.array_equal(u.data, x):
+    if not np.array_equal(u.data, x, equal_nan=True):
         return 'shapeop-mutated-%s: the argument was modified' % op
     if op in ('ones_like', 'ones', 'zeros'):
         shape = x.shape[2:] if op == 'ones_like' else (2, 3)
@@ -386,7 +393,7 @@ def shapeop_fails(ctx, case):
         for p in range(P):
             ref = g(x[d, p])
             got = y.data[d, p]
-            if np.shape(got) != np.shape(ref) or not np.allclose(got, ref, rtol=1e-12, atol=1e-12):
+            if np.shape(got) != np.shape(ref) or not np.allclose(got, ref, rtol=1e-12, atol=1e-12, equal_nan=True):
                 return 'shapeop-%s: coefficient slice (%d,%d) differs from the NumPy operation on that slice' % (op, d, p)
     if op == 'symvec':
         ul = case.get('uplo') or 'F'
@@ -404,7 +411,7 @@ def shapeop_fails(ctx, case):
     except Exception:
         traced = None           # not every shape operation can be recorded
     if isinstance(traced, UTPM):
-        if traced.data.shape != y.data.shape or not np.array_equal(traced.data, y.data):
+        if traced.data.shape != y.data.shape or not np.array_equal(traced.data, y.data, equal_nan=True):
             return 'shapeop-traced-%s: the traced call (Function operand) differs from the direct call on the same data' % op
     if op in ('transpose', 'T') and not np.shares_memory(y.data, u.data):
         return 'shapeop-view-%s: the transpose does not share memory with its parent' % op
@@ -491,6 +498,14 @@ def run(ctx):
         do(overlap_case(rng, ctx.tier), overlap_fails)
     for i in range(n):
         do(shapeop_case(rng, ctx.tier), shapeop_fails)
+    # tril / triu of matrices whose discarded triangle holds inf / nan, on every run
+    for op_ in ('tril', 'triu'):
+        for k_ in (-1, 0, 1):
+            D_, P_ = rng.randint(1, 3), rng.randint(1, 2)
+            xf = np.array(intdata(rng, (D_, P_, 3, 3)), dtype=float)
+            for (r_, c_) in ((0, 2), (2, 0), (0, 1), (1, 0)):
+                xf[:, :, r_, c_] = rng.choice([np.inf, -np.inf, np.nan])
+            do({'op': op_, 'D': D_, 'P': P_, 'x': xf, 'k': k_}, shapeop_fails)
     # every form of the shape argument of reshape on every run (the separate-integers form of the method included)
     for t in ((3, 2), (6,), (1, 2, 3), (3, -1), (-1,)):
         for form in ['tuple', 'list', 'npints', 'method', 'method-list', 'varargs'] + (['int', 'npint', 'method-npint'] if len(t) == 1 else []):
